@@ -76,6 +76,25 @@ def discover(ctx, fi):
   return r
 
 
+def quantized_definition(ctx, rule):
+  """"Quantized" means a positive resolution: steps_per_quarter > 0 or steps_per_second > 0.  (Presence of the oneof member
+  is not the same: a field explicitly set to 0 is present.)  The guard of every operation on unquantized input relies on it."""
+  q = ctx.func(SL + ':is_quantized_sequence')
+  rets = [s for s in U.walk_stmts(q.node) if isinstance(s, ast.Return)]
+  ok = False
+  if len(rets) == 1 and isinstance(rets[0].value, ast.BoolOp) and isinstance(rets[0].value.op, ast.Or) and len(rets[0].value.values) == 2:
+    p = q.params()[0]
+    forms = set()
+    for v in rets[0].value.values:
+      c = U.compare_full(v)
+      if c is not None and c[1] == '<' and c[0] == '0' and c[2] in ('%s.quantization_info.steps_per_quarter' % p, '%s.quantization_info.steps_per_second' % p):
+        forms.add(c[2].split('.')[-1])
+    ok = forms == {'steps_per_quarter', 'steps_per_second'}
+  ctx.ob(rule, q, rets[0] if rets else q.node, ok, 'quantized iff steps_per_quarter > 0 or steps_per_second > 0' if ok else
+         'is_quantized_sequence is not "steps_per_quarter > 0 or steps_per_second > 0": sequences with an explicit zero resolution (or none) are classified differently',
+         construct='is_quantized_sequence = positive resolution')
+
+
 def run(ctx):
   fq = SL + ':apply_sustain_control_changes'
   fi = ctx.func(fq)
@@ -92,6 +111,7 @@ def run(ctx):
   first = body[0]
   ok = isinstance(first, ast.If) and 'is_quantized_sequence(note_sequence)' in norm_text(first.test) and \
       any(isinstance(x, ast.Raise) and isinstance(x.exc, ast.Call) and dotted(x.exc.func) == 'QuantizationStatusError' for x in first.body)
+  quantized_definition(ctx, 'ESC/quantized-definition')
   ctx.ob('ESC/quantized-rejected', fi, first, ok, 'quantized input raises QuantizationStatusError before any work' if ok else
          'quantized input is not rejected with QuantizationStatusError before the sequence is processed')
   ranks(ctx, fi, R)
@@ -308,6 +328,7 @@ def dispatch(ctx, fi, R):
 
 
 MUTANTS = [
+    Mutant('seed C14_c: quantized = the resolution oneof is set (an explicit 0 counts)', F, "  return (note_sequence.quantization_info.steps_per_quarter > 0 or\n          note_sequence.quantization_info.steps_per_second > 0)", "  return note_sequence.quantization_info.WhichOneof('resolution') is not None", rule='ESC/quantized-definition'),
     Mutant('note-on before sustain-off at equal times', F, '_SUSTAIN_ON = 0\n_SUSTAIN_OFF = 1\n_NOTE_ON = 2\n_NOTE_OFF = 3', '_SUSTAIN_ON = 0\n_SUSTAIN_OFF = 2\n_NOTE_ON = 1\n_NOTE_OFF = 3', rule='RANK/chain'),
     Mutant('note-off before note-on', F, '_NOTE_ON = 2\n_NOTE_OFF = 3', '_NOTE_ON = 3\n_NOTE_OFF = 2', rule='RANK/chain'),
     Mutant('sorted by time only', F, '  events.sort(key=operator.itemgetter(0, 1))', '  events.sort(key=operator.itemgetter(0))', rule='RANK/sort-key'),
